@@ -39,6 +39,7 @@ type Env struct {
 	nonce   int64
 	CfgEdit func(string) string
 	Len     int // trunk length (TrunkLen unless built with NewEnvLen)
+	extra   map[string]*types.Block // C26: one more block on top of a tip, built once per tip
 }
 
 // NewEnv starts the producer, builds the trunk and snapshots it.
